@@ -6,6 +6,7 @@
 package main
 
 import (
+	"time"
 	"flag"
 	"fmt"
 	"os"
@@ -50,6 +51,9 @@ func main() {
 		fmt.Fprintln(os.Stderr, err)
 		os.Exit(2)
 	}
+	// calls made by the scheduler goroutine itself into the real code (Call, Cancel, Put, …) are bracketed with
+	// R.Enter / R.Leave: one that does not return within the limit ends the run with `mon HANG` (exit 3)
+	rec.StartWatchdog(20 * time.Second)
 	ctx := &Ctx{Seed: *seed, Thorough: *tier == "thorough", R: r, Rnd: gen.New(*seed), Focus: *focus, Replay: *replay}
 	f(ctx)
 	if err := r.Close(*stats); err != nil {
